@@ -540,17 +540,18 @@ func (sched *StdScheduler) startExecutionLoop(ctx context.Context) {
 	defer sched.wg.Done()
 	const maxTimerDuration = time.Duration(1<<63 - 1)
 	timer := time.NewTimer(maxTimerDuration)
-	// set when the queue failed while a job was being fetched or rescheduled
-	var failed bool
+	// the time before which a queue that failed while a job was being
+	// fetched or rescheduled is not tried again
+	var retryAt time.Time
 	for {
 		queueSize, err := sched.queue.Size()
 		switch {
 		case err != nil:
 			sched.logger.Error("Failed to fetch queue size", "error", err)
 			timer.Reset(sched.opts.RetryInterval)
-		case failed:
+		case time.Now().Before(retryAt):
 			// do not hammer a failing queue
-			timer.Reset(sched.opts.RetryInterval)
+			timer.Reset(time.Until(retryAt))
 		case queueSize == 0:
 			sched.logger.Trace("Queue is empty")
 			timer.Reset(maxTimerDuration)
@@ -560,7 +561,9 @@ func (sched *StdScheduler) startExecutionLoop(ctx context.Context) {
 		select {
 		case <-timer.C:
 			sched.logger.Trace("Tick")
-			failed = sched.executeAndReschedule(ctx) != nil
+			if err := sched.executeAndReschedule(ctx); err != nil {
+				retryAt = time.Now().Add(sched.opts.RetryInterval)
+			}
 
 		case <-sched.interrupt:
 			sched.logger.Trace("Interrupted waiting for next tick")
